@@ -1,0 +1,387 @@
+//go:build verif
+
+// Contracts for the DSL printer (jsontodsl.go), checked by govc. Notes: /tmp/cw/printer/NOTES.md.
+// Comments and import anchors only; compiled only with -tags verif.
+package transformer
+
+import (
+	openfgav1 "github.com/openfga/api/proto/openfga/v1"
+)
+
+var _ *openfgav1.RelationReference
+
+// ---------------------------------------------------------------------------------------------------------------
+// Leaf printers: exact strings.
+
+// renderRestriction(r): type [":*"] ["#"+relation] [" with "+condition]
+//@ spec renderRestriction(r *openfgav1.RelationReference) string =
+//@   r.GetType() + ite(r.GetWildcard() != nil, ":*", "") + ite(r.GetRelation() != "", "#" + r.GetRelation(), "")
+//@     + ite(r.GetCondition() != "", " with " + r.GetCondition(), "")
+
+//@ func parseTypeRestriction
+//@   props C02 C14 C13
+//@   pure
+//@   ensures exact: result == renderRestriction(restriction)
+
+// ---------------------------------------------------------------------------------------------------------------
+// prioritizeDirectAssignment: Hoist(s) - the first direct assignment (if any, and if not already first) is moved to
+// the front, the relative order of the others is kept; the input slice is not written (C13).
+
+// firstThisFrom(s, i): index of the first direct assignment among s[i:], or -1.
+//@ spec firstThisFrom(s []*openfgav1.Userset, i int) int =
+//@   ite(i < 0 || i >= len(s), -1, ite(isThis(s[i]), i, firstThisFrom(s, i + 1)))
+
+// hoistSrc(p, i): index in s of the i-th element of Hoist(s); hoistDst(p, j): position in Hoist(s) of s[j]
+// (p = firstThisFrom(s, 0); inverse of each other on 0..len(s)).
+//@ spec hoistSrc(p int, i int) int = ite(p <= 0, i, ite(i == 0, p, ite(i <= p, i - 1, i)))
+//@ spec hoistDst(p int, j int) int = ite(p <= 0, j, ite(j == p, 0, ite(j < p, j + 1, j)))
+
+//@ func prioritizeDirectAssignment
+//@   props C02 C14 C13
+//@   readonly
+//@   pure
+//@   ensures pos_range:   let p = old(firstThisFrom(usersets, 0)) :: -1 <= p && p < len(usersets)
+//@   ensures pos_is_this: let p = old(firstThisFrom(usersets, 0)) :: p >= 0 ==> old(isThis(usersets[p]))
+//@   ensures pos_first:   let p = old(firstThisFrom(usersets, 0)) :: forall j int :: 0 <= j && j < len(usersets) && (j < p || p < 0) ==> !old(isThis(usersets[j]))
+//@   ensures same_when_first_or_none: old(firstThisFrom(usersets, 0)) <= 0 ==> result == usersets
+//@   ensures same_len:    len(result) == len(usersets)
+//@   ensures hoisted:     let p = old(firstThisFrom(usersets, 0)) :: p > 0 ==> result[0] == old(usersets[p])
+//@   ensures before_kept: let p = old(firstThisFrom(usersets, 0)) :: p > 0 ==> (forall i int :: 1 <= i && i <= p ==> result[i] == old(usersets[i - 1]))
+//@   ensures after_kept:  let p = old(firstThisFrom(usersets, 0)) :: p > 0 ==> (forall k int :: 0 <= k && k < len(usersets) - (p + 1) ==> result[1 + p + k] == old(usersets[p + 1 + k]))
+//@   ensures src_map: let p = old(firstThisFrom(usersets, 0)) :: forall i int :: 0 <= i && i < len(usersets) ==> result[i] == old(usersets[hoistSrc(p, i)])
+//@   ensures dst_map: let p = old(firstThisFrom(usersets, 0)) :: forall j int :: 0 <= j && j < len(usersets) ==> old(usersets[j]) == result[hoistDst(p, j)]
+//@   ensures input_kept:  forall i int :: 0 <= i && i < len(usersets) ==> usersets[i] == old(usersets[i])
+//@   loop 1 invariant same_pos: firstThisFrom(usersets, 0) == firstThisFrom(usersets, $i)
+//@   loop 1 invariant none_yet: forall j int :: 0 <= j && j < $i ==> !isThis(usersets[j])
+
+// (`readonly` cannot be used on functions that append to a string slice in a loop: its obligation is an equality of
+// whole backing arrays, which does not follow from the element-wise frame fact below without extensionality
+// instantiations the solvers do not find. frame_strings is the element-wise statement of C13 for string slices.)
+//@ func parseTypeRestrictions
+//@   props C02 C14 C13
+//@   ensures same_len: len(result) == len(restrictions)
+//@   ensures each:     forall i int :: 0 <= i && i < len(restrictions) ==> result[i] == renderRestriction(restrictions[i])
+//@   ensures fresh_result: fresh(result)
+//@   ensures frame_strings: {C13} forall s []string, i int :: isold(s) ==> s[i] == old(s[i])
+//@   loop 1 invariant bounds: 0 <= index && index <= len(restrictions) && len(parsedTypeRestrictions) == index
+//@   loop 1 invariant is_fresh: fresh(parsedTypeRestrictions)
+//@   loop 1 invariant frame_strings: forall s []string, i int :: isold(s) ==> s[i] == old(s[i])
+//@   loop 1 invariant each: forall i int :: 0 <= i && i < index ==> parsedTypeRestrictions[i] == renderRestriction(restrictions[i])
+
+// parseThis: "[" + Join(restrictions rendered, ", ") + "]". The engine models strings.Join on a slice of symbolic
+// length as an uninterpreted function that cannot be named in contracts, so the exact text is stated for 0 and 1
+// restrictions and the bracket shape for any number.
+//@ func parseThis
+//@   props C02 C14 C13
+//@   ensures frame_strings: {C13} forall s []string, i int :: isold(s) ==> s[i] == old(s[i])
+//@   ensures brackets: hasPrefix(result, "[") && hasSuffix(result, "]")
+//@   ensures none:     len(typeRestrictions) == 0 ==> result == "[]"
+//@   ensures single:   len(typeRestrictions) == 1 ==> result == "[" + renderRestriction(typeRestrictions[0]) + "]"
+
+//@ func parseTupleToUserset
+//@   props C02 C14 C13
+//@   inline
+//@   ensures exact: result == relationDefinition.GetTupleToUserset().GetComputedUserset().GetRelation() + " from "
+//@                            + relationDefinition.GetTupleToUserset().GetTupleset().GetRelation()
+
+//@ func parseComputedUserset
+//@   props C02 C14 C13
+//@   inline
+//@   ensures exact: result == relationDefinition.GetComputedUserset().GetRelation()
+
+// ---------------------------------------------------------------------------------------------------------------
+// The recursive printer. Specification functions over rewrite trees (A-TREE: height() decreases towards children).
+//
+// thisCount(u, m, n) is ONE self-recursive function because the engine mis-declares mutually recursive specification
+// functions that read the heap (see NOTES.md): m == 0: number of direct assignments in the tree u, as the printer
+// recognises them (GetThis() != nil); m == 1 / m == 2: the same summed over the first n children of the union /
+// intersection u. Readable wrappers: countThis(u), countUnion(u, n), countIntersection(u, n).
+//@ spec thisCount(u *openfgav1.Userset, m int, n int) int =
+//@   ite(m == 0,
+//@     ite(u.GetThis() != nil, 1,
+//@     ite(u.GetComputedUserset() != nil || u.GetTupleToUserset() != nil, 0,
+//@     ite(u.GetUnion() != nil, thisCount(u, 1, len(u.GetUnion().GetChild())),
+//@     ite(u.GetIntersection() != nil, thisCount(u, 2, len(u.GetIntersection().GetChild())),
+//@     ite(u.GetDifference() != nil, thisCount(u.GetDifference().GetBase(), 0, 0) + thisCount(u.GetDifference().GetSubtract(), 0, 0), 0))))),
+//@   ite(n <= 0, 0,
+//@   ite(m == 1, thisCount(u, 1, n - 1) + thisCount(u.GetUnion().GetChild()[n - 1], 0, 0),
+//@               thisCount(u, 2, n - 1) + thisCount(u.GetIntersection().GetChild()[n - 1], 0, 0))))
+//@ spec countThis(u *openfgav1.Userset) int = thisCount(u, 0, 0)
+//@ spec countUnion(u *openfgav1.Userset, n int) int = thisCount(u, 1, n)
+//@ spec countIntersection(u *openfgav1.Userset, n int) int = thisCount(u, 2, n)
+
+// wfKinds(u): every node of u is one of the six kinds the DSL can express (direct assignment, computed userset,
+// tuple-to-userset, union, intersection, difference); a nil node or an empty oneof is not.
+//@ spec wfKinds(u *openfgav1.Userset) bool =
+//@   u.GetThis() != nil || u.GetComputedUserset() != nil || u.GetTupleToUserset() != nil
+//@   || (u.GetUnion() != nil && (forall i int :: 0 <= i && i < len(u.GetUnion().GetChild()) ==> wfKinds(u.GetUnion().GetChild()[i])))
+//@   || (u.GetIntersection() != nil && (forall i int :: 0 <= i && i < len(u.GetIntersection().GetChild()) ==> wfKinds(u.GetIntersection().GetChild()[i])))
+//@   || (u.GetDifference() != nil && wfKinds(u.GetDifference().GetBase()) && wfKinds(u.GetDifference().GetSubtract()))
+
+// nestingMsg: text of errors.UnsupportedDSLNestingError(typeName, relationName)
+//@ spec nestingMsg(typeName string, relationName string) string =
+//@   "the '" + relationName + "' relation definition under the '" + typeName + "' type is not supported by the OpenFGA DSL syntax yet"
+
+// hoistedUnion(u, p, k): direct assignments in the first k elements of Hoist(children of the union u), where
+// p = firstThisFrom(children, 0) (the hoisted element is a direct assignment, so it counts 1). Same for intersections.
+//@ spec hoistedUnion(u *openfgav1.Userset, p int, k int) int =
+//@   ite(p <= 0, countUnion(u, k), ite(k <= 0, 0, ite(k <= p, 1 + countUnion(u, k - 1), countUnion(u, k))))
+//@ spec hoistedIntersection(u *openfgav1.Userset, p int, k int) int =
+//@   ite(p <= 0, countIntersection(u, k), ite(k <= 0, 0, ite(k <= p, 1 + countIntersection(u, k - 1), countIntersection(u, k))))
+
+//@ func (*DirectAssignmentValidator).incr
+//@   inline
+//@ func (*DirectAssignmentValidator).occurrences
+//@   inline
+
+//@ func parseSubRelation
+//@   props C02 C01 C13
+//@   ensures frame_validators: {C13} forall v *DirectAssignmentValidator :: v != validator ==> v.occurred == old(v.occurred)
+//@   requires validator != nil
+//@   decreases 2 * height(relationDefinition) + 1
+//@   ensures ok_iff_wf: err == nil <==> wfKinds(relationDefinition)
+//@   ensures counts:    err == nil ==> validator.occurred == old(validator.occurred) + countThis(relationDefinition)
+//@   ensures err_empty: err != nil ==> result == ""
+//@   ensures err_msg:   err != nil ==> errmsg(err) == nestingMsg(typeName, relationName)
+//@   ensures direct_brackets: relationDefinition.GetThis() != nil ==> hasPrefix(result, "[") && hasSuffix(result, "]")
+//@   ensures direct_none:     relationDefinition.GetThis() != nil && len(typeRestrictions) == 0 ==> result == "[]"
+//@   ensures direct_single:   relationDefinition.GetThis() != nil && len(typeRestrictions) == 1 ==> result == "[" + renderRestriction(typeRestrictions[0]) + "]"
+//@   ensures computed:        relationDefinition.GetComputedUserset() != nil ==> result == relationDefinition.GetComputedUserset().GetRelation()
+//@   ensures tuple_to_userset: relationDefinition.GetTupleToUserset() != nil ==> result == relationDefinition.GetTupleToUserset().GetComputedUserset().GetRelation()
+//@                                     + " from " + relationDefinition.GetTupleToUserset().GetTupleset().GetRelation()
+//@   ensures nested_in_parens: err == nil && (relationDefinition.GetUnion() != nil || relationDefinition.GetIntersection() != nil || relationDefinition.GetDifference() != nil)
+//@                                     ==> hasPrefix(result, "(") && hasSuffix(result, ")")
+//@   ensures frame_strings: {C13} forall s []string, i int :: isold(s) ==> s[i] == old(s[i])
+
+//@ func parseUnion
+//@   props C02 C01 C13
+//@   ensures frame_validators: {C13} forall v *DirectAssignmentValidator :: v != validator ==> v.occurred == old(v.occurred)
+//@   requires validator != nil
+//@   decreases 2 * height(relationDefinition)
+//@   ensures frame_strings: {C13} forall s []string, i int :: isold(s) ==> s[i] == old(s[i])
+//@   loop 1 invariant frame_strings: forall s []string, i int :: isold(s) ==> s[i] == old(s[i])
+//@   loop 1 invariant out_fresh: fresh(parsedString)
+//@   loop 1 invariant frame_validators: forall v *DirectAssignmentValidator :: v != validator ==> v.occurred == old(v.occurred)
+//@   loop 1 invariant kids_smaller: forall i int :: 0 <= i && i < len(children) ==> height(children[i]) < height(relationDefinition)
+//@   ensures ok_iff_wf: err == nil <==> (forall i int :: 0 <= i && i < len(relationDefinition.GetUnion().GetChild()) ==> wfKinds(relationDefinition.GetUnion().GetChild()[i]))
+//@   ensures counts:    err == nil ==> validator.occurred == old(validator.occurred) + countUnion(relationDefinition, len(relationDefinition.GetUnion().GetChild()))
+//@   ensures err_empty: err != nil ==> result == ""
+//@   ensures err_msg:   err != nil ==> errmsg(err) == nestingMsg(typeName, relationName)
+//@   loop 1 invariant bounds: 0 <= index && index <= len(children)
+//@   loop 1 invariant wf_so_far: forall i int :: 0 <= i && i < index ==> wfKinds(children[i])
+//@   loop 1 invariant counted: validator.occurred == old(validator.occurred)
+//@        + hoistedUnion(relationDefinition, firstThisFrom(relationDefinition.GetUnion().GetChild(), 0), index)
+
+//@ func parseIntersection
+//@   props C02 C01 C13
+//@   ensures frame_validators: {C13} forall v *DirectAssignmentValidator :: v != validator ==> v.occurred == old(v.occurred)
+//@   requires validator != nil
+//@   decreases 2 * height(relationDefinition)
+//@   ensures frame_strings: {C13} forall s []string, i int :: isold(s) ==> s[i] == old(s[i])
+//@   loop 1 invariant frame_strings: forall s []string, i int :: isold(s) ==> s[i] == old(s[i])
+//@   loop 1 invariant out_fresh: fresh(parsedString)
+//@   loop 1 invariant frame_validators: forall v *DirectAssignmentValidator :: v != validator ==> v.occurred == old(v.occurred)
+//@   loop 1 invariant kids_smaller: forall i int :: 0 <= i && i < len(children) ==> height(children[i]) < height(relationDefinition)
+//@   ensures ok_iff_wf: err == nil <==> (forall i int :: 0 <= i && i < len(relationDefinition.GetIntersection().GetChild()) ==> wfKinds(relationDefinition.GetIntersection().GetChild()[i]))
+//@   ensures counts:    err == nil ==> validator.occurred == old(validator.occurred) + countIntersection(relationDefinition, len(relationDefinition.GetIntersection().GetChild()))
+//@   ensures err_empty: err != nil ==> result == ""
+//@   ensures err_msg:   err != nil ==> errmsg(err) == nestingMsg(typeName, relationName)
+//@   loop 1 invariant bounds: 0 <= index && index <= len(children)
+//@   loop 1 invariant wf_so_far: forall i int :: 0 <= i && i < index ==> wfKinds(children[i])
+//@   loop 1 invariant counted: validator.occurred == old(validator.occurred)
+//@        + hoistedIntersection(relationDefinition, firstThisFrom(relationDefinition.GetIntersection().GetChild(), 0), index)
+
+//@ func parseDifference
+//@   props C02 C01 C13
+//@   ensures frame_validators: {C13} forall v *DirectAssignmentValidator :: v != validator ==> v.occurred == old(v.occurred)
+//@   ensures but_not: err == nil ==> contains(result, " but not ")
+//@   ensures base_first: err == nil && isThis(relationDefinition.GetDifference().GetBase()) ==> hasPrefix(result, "[")
+//@   ensures frame_strings: {C13} forall s []string, i int :: isold(s) ==> s[i] == old(s[i])
+//@   requires validator != nil
+//@   requires relationDefinition.GetDifference() != nil
+//@   decreases 2 * height(relationDefinition)
+//@   ensures ok_iff_wf: err == nil <==> (wfKinds(relationDefinition.GetDifference().GetBase()) && wfKinds(relationDefinition.GetDifference().GetSubtract()))
+//@   ensures counts:    err == nil ==> validator.occurred == old(validator.occurred)
+//@                         + countThis(relationDefinition.GetDifference().GetBase()) + countThis(relationDefinition.GetDifference().GetSubtract())
+//@   ensures err_empty: err != nil ==> result == ""
+//@   ensures err_msg:   err != nil ==> errmsg(err) == nestingMsg(typeName, relationName)
+
+// ---------------------------------------------------------------------------------------------------------------
+// parseRelation: C02 - conversion succeeds exactly for expressible relations, otherwise the 'unsupported nesting'
+// error and no text.
+
+// expressible(u): well-formed kinds, and at most one direct assignment which can be printed first.
+//@ spec expressible(u *openfgav1.Userset) bool =
+//@   wfKinds(u) && (countThis(u) == 0 || (countThis(u) == 1 && onFirstSpine(u)))
+
+// relationComment: the source-information comment of a relation (C14: the only effect of includeSourceInformation)
+//@ spec relationComment(m *openfgav1.RelationMetadata, include bool) string =
+//@   constructSourceComment(m.GetModule(), m.GetSourceInfo().GetFile(), " extended by:", include)
+
+//@ func parseRelation
+//@   props C02 C01 C14 C13
+//@   ensures frame_validators: {C13} forall v *DirectAssignmentValidator :: isold(v) ==> v.occurred == old(v.occurred)
+//@   ensures ok_iff_expressible: err == nil <==> expressible(relationDefinition)
+//@   ensures err_empty: err != nil ==> result == ""
+//@   ensures err_msg:   err != nil ==> errmsg(err) == nestingMsg(typeName, relationName)
+//@   ensures shape_head: err == nil ==> hasPrefix(result, "    define " + relationName + ": ")
+//@   ensures shape_tail: err == nil ==> hasSuffix(result, relationComment(relationMetadata, includeSourceInformation))
+//@   ensures computed:  relationDefinition.GetComputedUserset() != nil ==> err == nil
+//@                        && result == "    define " + relationName + ": " + relationDefinition.GetComputedUserset().GetRelation()
+//@                                     + relationComment(relationMetadata, includeSourceInformation)
+//@   ensures tuple_to_userset: relationDefinition.GetTupleToUserset() != nil ==> err == nil
+//@                        && result == "    define " + relationName + ": " + relationDefinition.GetTupleToUserset().GetComputedUserset().GetRelation()
+//@                                     + " from " + relationDefinition.GetTupleToUserset().GetTupleset().GetRelation()
+//@                                     + relationComment(relationMetadata, includeSourceInformation)
+//@   ensures direct_single: relationDefinition.GetThis() != nil && len(relationMetadata.GetDirectlyRelatedUserTypes()) == 1 ==> err == nil
+//@                        && result == "    define " + relationName + ": [" + renderRestriction(relationMetadata.GetDirectlyRelatedUserTypes()[0]) + "]"
+//@                                     + relationComment(relationMetadata, includeSourceInformation)
+//@   ensures frame_strings: {C13} forall s []string, i int :: isold(s) ==> s[i] == old(s[i])
+
+// ---------------------------------------------------------------------------------------------------------------
+// Conditions. C14: parameters are printed in ascending order of their names (a strictly ascending list of keys of
+// the map is unique, i.e. a function of the map's content and not of its iteration order).
+
+// paramTypeText(r): "TYPE_NAME_X" -> "x"; paramText(name, r): `name: type` or `name: list<elem>` / `name: map<elem>`
+//@ spec paramTypeText(r *openfgav1.ConditionParamTypeRef) string = toLower(replaceAll(enumName(r.GetTypeName()), "TYPE_NAME_", ""))
+//@ spec paramText(name string, r *openfgav1.ConditionParamTypeRef) string =
+//@   name + ": " + ite(paramTypeText(r) == "list" || paramTypeText(r) == "map",
+//@                     paramTypeText(r) + "<" + paramTypeText(r.GetGenericTypes()[0]) + ">", paramTypeText(r))
+
+// missingGenericMsg: text of errors.ConditionParamMissingGenericTypeError(name, type)
+//@ spec missingGenericMsg(name string, typ string) string =
+//@   "the '" + name + "' condition parameter of type '" + typ + "' is missing its generic type"
+
+//@ func parseConditionParams
+//@   props C14 C13 C01 C08
+//@   ensures empty: len(parameterMap) == 0 ==> result == "" && err == nil
+//@   ensures err_empty: err != nil ==> result == ""
+//@   ensures err_cause: err != nil ==> (exists k string :: (paramTypeText(parameterMap[k]) == "list" || paramTypeText(parameterMap[k]) == "map")
+//@                        && len(parameterMap[k].GetGenericTypes()) == 0 && errmsg(err) == missingGenericMsg(k, paramTypeText(parameterMap[k])))
+//@   ensures frame_strings: {C13} forall s []string, i int :: isold(s) ==> s[i] == old(s[i])
+//@   -- loop 1 collects the keys in the (arbitrary) iteration order of the map: no key twice, only keys, every visited key
+//@   loop 1 invariant names_fresh: fresh(parameterNames) && off(parameterNames) == 0
+//@   loop 1 invariant empty_map: len(parameterMap) == 0 ==> len(parameterNames) == 0
+//@   loop 1 invariant visited_are_keys: forall k string :: $visited[k] ==> has(parameterMap, k)
+//@   loop 1 invariant names_visited: forall i int :: 0 <= i && i < len(parameterNames) ==> $visited[parameterNames[i]]
+//@   loop 1 invariant visited_named: forall k string :: $visited[k] ==> (exists i int :: 0 <= i && i < len(parameterNames) && parameterNames[i] == k)
+//@   loop 1 invariant names_distinct: forall i int, j int :: 0 <= i && i < j && j < len(parameterNames) ==> parameterNames[i] != parameterNames[j]
+//@   loop 1 invariant frame_strings: forall s []string, i int :: isold(s) ==> s[i] == old(s[i])
+//@   -- loop 2 prints them after sort.Strings: strictly ascending keys, one entry per name, in that order
+//@   loop 2 invariant separate: fresh(parameterNames) && off(parameterNames) == 0 && ((len(parametersStringArray) == 0 && cap(parametersStringArray) == 0)
+//@                                   || (fresh(parametersStringArray) && arr(parametersStringArray) != arr(parameterNames)))
+//@   loop 2 invariant ascending: forall i int, j int :: 0 <= i && i < j && j < len(parameterNames) ==> parameterNames[i] <= parameterNames[j]
+//@   loop 2 invariant empty_map: len(parameterMap) == 0 ==> len(parameterNames) == 0
+//@   loop 2 invariant one_each: len(parametersStringArray) == $i
+//@   loop 2 invariant in_order: forall i int :: 0 <= i && i < $i ==> parametersStringArray[i] == paramText(parameterNames[i], parameterMap[parameterNames[i]])
+//@   loop 2 invariant frame_strings: forall s []string, i int :: isold(s) ==> s[i] == old(s[i])
+
+// conditionComment: source-information comment of a condition.
+//@ spec conditionComment(c *openfgav1.Condition, include bool) string =
+//@   constructSourceComment(c.GetMetadata().GetModule(), c.GetMetadata().GetSourceInfo().GetFile(), "", include)
+
+//@ func parseCondition
+//@   props C02 C01 C14 C13
+//@   ensures rejects_other_name: conditionName != conditionDef.GetName() ==> err != nil
+//@                        && errmsg(err) == "the '" + conditionName + "' condition has a different nested condition name ('" + conditionDef.GetName() + "')"
+//@   ensures err_empty: err != nil ==> result == ""
+//@   ensures err_params: err != nil && conditionName == conditionDef.GetName() ==> (exists k string, t string :: errmsg(err) == missingGenericMsg(k, t))
+//@   ensures shape:     err == nil ==> (exists params string :: result == "condition " + conditionName + "(" + params + ") {\n  "
+//@                        + conditionDef.GetExpression() + "\n}" + conditionComment(conditionDef, includeSourceInformation) + "\n")
+//@   ensures no_params: err == nil && len(conditionDef.GetParameters()) == 0 ==> result == "condition " + conditionName + "() {\n  "
+//@                        + conditionDef.GetExpression() + "\n}" + conditionComment(conditionDef, includeSourceInformation) + "\n"
+//@   ensures frame_strings: {C13} forall s []string, i int :: isold(s) ==> s[i] == old(s[i])
+
+// condBefore(m, a, b): the documented order of conditions (C14) - sortByModule on (name, module, file) of the two
+// conditions m[a], m[b]: unattributed first, then by module, file, name.
+//@ spec condOrder(m map[string]*openfgav1.Condition, a string, b string) int =
+//@   sortByModule(a, b, m[a].GetMetadata().GetModule(), m[b].GetMetadata().GetModule(),
+//@                m[a].GetMetadata().GetSourceInfo().GetFile(), m[b].GetMetadata().GetSourceInfo().GetFile())
+
+// The sequence of printed names is a local of the function and the engine has no "sorted keys of a map" abstraction
+// (see NOTES.md: facts about elements cannot be carried across the sort model), so the postconditions say what can be
+// said without it; the order and the per-element text are stated as loop invariants.
+//@ func parseConditions
+//@   props C14 C13 C02 C01
+//@   ensures none:      len(model.GetConditions()) == 0 ==> result == "" && err == nil
+//@   ensures err_empty: err != nil ==> result == ""
+//@   ensures err_cause: err != nil ==> (exists k string :: k != model.GetConditions()[k].GetName()
+//@                        && errmsg(err) == "the '" + k + "' condition has a different nested condition name ('" + model.GetConditions()[k].GetName() + "')")
+//@                        || (exists k string, t string :: errmsg(err) == missingGenericMsg(k, t))
+//@   ensures shape:     err == nil ==> result == "" || hasPrefix(result, "\ncondition ")
+//@   ensures frame_strings: {C13} forall s []string, i int :: isold(s) ==> s[i] == old(s[i])
+//@   -- loop 1: the names collected are exactly the visited keys, each once (any iteration order)
+//@   loop 1 invariant names_fresh: fresh(conditionNames) && off(conditionNames) == 0
+//@   loop 1 invariant visited_are_keys: forall k string :: $visited[k] ==> has(model.GetConditions(), k)
+//@   loop 1 invariant names_visited: forall i int :: 0 <= i && i < len(conditionNames) ==> $visited[conditionNames[i]]
+//@   loop 1 invariant visited_named: forall k string :: $visited[k] ==> (exists i int :: 0 <= i && i < len(conditionNames) && conditionNames[i] == k)
+//@   loop 1 invariant names_distinct: forall i int, j int :: 0 <= i && i < j && j < len(conditionNames) ==> conditionNames[i] != conditionNames[j]
+//@   loop 1 invariant frame_strings: forall s []string, i int :: isold(s) ==> s[i] == old(s[i])
+//@   -- loop 2: printed in the documented order, one "\ncondition ..." block per name
+//@   loop 2 invariant bounds: 0 <= index && index <= len(conditionNames) && fresh(conditionNames)
+//@   loop 2 invariant ordered: forall i int, j int :: 0 <= i && i < j && j < len(conditionNames) ==> condOrder(model.GetConditions(), conditionNames[i], conditionNames[j]) <= 0
+//@   loop 2 invariant shape: parsedConditionsString == "" || hasPrefix(parsedConditionsString, "\ncondition ")
+//@   loop 2 invariant frame_strings: forall s []string, i int :: isold(s) ==> s[i] == old(s[i])
+
+// ---------------------------------------------------------------------------------------------------------------
+// parseType: "type T[comment]" then, if there are relations, "\n  relations" and one "\n    define ..." line per
+// relation in the documented order (C14): by name, or for modular models by (module, file, name) of the relation
+// metadata with unattributed relations first.
+
+//@ spec typeComment(t *openfgav1.TypeDefinition, include bool) string =
+//@   constructSourceComment(t.GetMetadata().GetModule(), t.GetMetadata().GetSourceInfo().GetFile(), "", include)
+//@ spec typeHeader(t *openfgav1.TypeDefinition, include bool) string = "type " + t.GetType() + typeComment(t, include)
+//@ spec relOrder(md map[string]*openfgav1.RelationMetadata, a string, b string) int =
+//@   sortByModule(a, b, md[a].GetModule(), md[b].GetModule(), md[a].GetSourceInfo().GetFile(), md[b].GetSourceInfo().GetFile())
+
+//@ func parseType
+//@   props C02 C01 C14 C13
+//@   ensures frame_validators: {C13} forall v *DirectAssignmentValidator :: isold(v) ==> v.occurred == old(v.occurred)
+//@   ensures no_relations: len(typeDefinition.GetRelations()) == 0 ==> err == nil && result == typeHeader(typeDefinition, includeSourceInformation)
+//@   ensures err_empty: err != nil ==> result == ""
+//@   ensures err_cause: err != nil ==> (exists k string :: !expressible(typeDefinition.GetRelations()[k]) && errmsg(err) == nestingMsg(typeDefinition.GetType(), k))
+//@   ensures frame_strings: {C13} forall s []string, i int :: isold(s) ==> s[i] == old(s[i])
+//@   -- loop 1: the names collected are exactly the visited keys, each once (any iteration order)
+//@   loop 1 invariant names_fresh: fresh(relationsList) && off(relationsList) == 0
+//@   loop 1 invariant visited_are_keys: forall k string :: $visited[k] ==> has(typeDefinition.GetRelations(), k)
+//@   loop 1 invariant names_visited: forall i int :: 0 <= i && i < len(relationsList) ==> $visited[relationsList[i]]
+//@   loop 1 invariant visited_named: forall k string :: $visited[k] ==> (exists i int :: 0 <= i && i < len(relationsList) && relationsList[i] == k)
+//@   loop 1 invariant names_distinct: forall i int, j int :: 0 <= i && i < j && j < len(relationsList) ==> relationsList[i] != relationsList[j]
+//@   loop 1 invariant frame_strings: forall s []string, i int :: isold(s) ==> s[i] == old(s[i])
+//@   -- loop 2: printed in the documented order, one line per name
+//@   loop 2 invariant bounds: 0 <= index && index <= len(relationsList) && fresh(relationsList)
+//@   loop 2 invariant ordered_by_name: !isModularModel ==> (forall i int, j int :: 0 <= i && i < j && j < len(relationsList) ==> relationsList[i] <= relationsList[j])
+//@   loop 2 invariant ordered_by_module: isModularModel ==> (forall i int, j int :: 0 <= i && i < j && j < len(relationsList)
+//@                                         ==> relOrder(typeDefinition.GetMetadata().GetRelations(), relationsList[i], relationsList[j]) <= 0)
+//@   loop 2 invariant frame_validators: forall v *DirectAssignmentValidator :: isold(v) ==> v.occurred == old(v.occurred)
+//@   loop 2 invariant frame_strings: forall s []string, i int :: isold(s) ==> s[i] == old(s[i])
+
+// ---------------------------------------------------------------------------------------------------------------
+// TransformJSONProtoToDSL. C13: `readonly` - no object of the caller's model is written. (On the original code the
+// in-place sort of the caller's TypeDefinitions slice, F-13a, made the frame of E$P.TypeDefinition and the clause
+// types_order_kept fail; the repaired code sorts a clone.) Two frames stay `unknown` for engine reasons, see NOTES.md:
+// E$String (whole-array equality after appends) and transformOptions.includeSourceInformation (the option is called
+// through a function value, the engine havocs that field for all objects of the unexported type).
+
+//@ spec typeOrder(a *openfgav1.TypeDefinition, b *openfgav1.TypeDefinition) int =
+//@   sortByModule(a.GetType(), b.GetType(), a.GetMetadata().GetModule(), b.GetMetadata().GetModule(),
+//@                a.GetMetadata().GetSourceInfo().GetFile(), b.GetMetadata().GetSourceInfo().GetFile())
+
+//@ func TransformJSONProtoToDSL
+//@   props C02 C01 C14 C13
+//@   readonly
+//@   loop 3 invariant frame_validators: forall v *DirectAssignmentValidator :: isold(v) ==> v.occurred == old(v.occurred)
+//@   ensures err_empty: err != nil ==> result == ""
+//@   ensures head:      err == nil ==> hasPrefix(result, "model\n  schema " + old(model.GetSchemaVersion()) + "\n")
+//@   ensures types_order_kept: {C13} forall i int :: 0 <= i && i < old(len(model.GetTypeDefinitions()))
+//@                        ==> old(model.GetTypeDefinitions())[i] == old(model.GetTypeDefinitions()[i])
+//@   ensures bare_model: err == nil && len(model.GetTypeDefinitions()) == 0 && len(model.GetConditions()) == 0
+//@                        ==> result == "model\n  schema " + old(model.GetSchemaVersion()) + "\n"
+//@   -- loop 2 looks for the first type definition with a module
+//@   loop 2 invariant bounds: 0 <= index && index <= len(typeDefs)
+//@   loop 2 invariant none_modular_yet: forall i int :: 0 <= i && i < index ==> typeDefs[i].GetMetadata().GetModule() == ""
+//@   -- loop 3 prints the types in slice order (plain model) or in the documented module order (modular model)
+//@   loop 3 invariant bounds: 0 <= index && index <= len(typeDefs) && len(typeDefinitions) == index
+//@   loop 3 invariant modular_order: isModularModel ==> (forall i int, j int :: 0 <= i && i < j && j < len(typeDefs) ==> typeOrder(typeDefs[i], typeDefs[j]) <= 0)
+//@   loop 3 invariant plain_model: !isModularModel ==> (forall i int :: 0 <= i && i < len(typeDefs) ==> typeDefs[i].GetMetadata().GetModule() == "")
+//@   loop 3 invariant each_type: forall i int :: 0 <= i && i < index ==> hasPrefix(typeDefinitions[i], "\ntype ")
